@@ -118,6 +118,24 @@ func c12ptrs(hashes [][32]byte) []*chainhash.Hash {
 	return out
 }
 
+// c12sharedPtrs returns pointers where equal values share one object; dup
+// reports whether any value occurs twice.
+func c12sharedPtrs(hashes [][32]byte) (out []*chainhash.Hash, dup bool) {
+	seen := map[[32]byte]*chainhash.Hash{}
+	for _, h := range hashes {
+		p, ok := seen[h]
+		if ok {
+			dup = true
+		} else {
+			v := chainhash.Hash(h)
+			p = &v
+			seen[h] = p
+		}
+		out = append(out, p)
+	}
+	return out, dup
+}
+
 var c12header = func() []byte {
 	h := make([]byte, 80)
 	h[0] = 1
@@ -134,6 +152,14 @@ var c12header = func() []byte {
 func c12both(c *vf.Ctx, t *c12tally, count uint32, hashes [][32]byte, flags []byte, max uint32, viaWire bool) int {
 	msg := wire.MsgMerkleBlock{Transactions: count, Hashes: c12ptrs(hashes), Flags: append([]byte(nil), flags...)}
 	ri := c12check(c, t, "ExtractMatches", &msg, count, hashes, flags, max)
+	// the same message with equal hash VALUES represented by the SAME pointer
+	// (a caller that interns hashes): equality of children is a matter of
+	// values, not of object identity
+	if shared, dup := c12sharedPtrs(hashes); dup {
+		msg2 := wire.MsgMerkleBlock{Transactions: count, Hashes: shared, Flags: append([]byte(nil), flags...)}
+		c.Inc("struct_messages_with_shared_hash_pointers")
+		c12check(c, t, "ExtractMatches(shared-pointers)", &msg2, count, hashes, flags, max)
+	}
 	if viaWire {
 		raw := ref.SerializeMerkleBlock(c12header, ref.PartialMerkle{Count: count, Hashes: hashes, Flags: flags})
 		var dec wire.MsgMerkleBlock
@@ -223,8 +249,13 @@ func c12enumCase(c *vf.Ctx, cell c12cell, max uint32) {
 	if cell.block < 0 {
 		msg := wire.MsgMerkleBlock{Transactions: cell.count, Hashes: ptrs}
 		c12check(c, &t, "ExtractMatches", &msg, cell.count, hashes, nil, max)
+		shared, dup := c12sharedPtrs(hashes)
 		for f := 0; f < 256; f++ {
 			run([]byte{byte(f)})
+			if dup && live {
+				msg := wire.MsgMerkleBlock{Transactions: cell.count, Hashes: shared, Flags: []byte{byte(f)}}
+				c12check(c, &t, "ExtractMatches(shared-pointers)", &msg, cell.count, hashes, []byte{byte(f)}, max)
+			}
 		}
 		c12both(c, &t, cell.count, hashes, []byte{byte(cell.list)}, max, true)
 	} else {
